@@ -19,7 +19,11 @@ PROPERTY = {
             "write_consistency": "[consistency] code per protocol table",
         }),
     ],
-    "kani": [],
+    "timeout": 900,
+    "kani": [
+        Harness("c09_twin_query_parameters", "C09.twin.query_parameters", "BOUNDED", "QueryParameters::serialize into a real Vec<u8>: all subsets of {serial consistency, timestamp, page size, paging state, skip_metadata}, symbolic values, hand-written protocol layout", bound="no bound values, 1-byte paging state, fixed consistency", crate="scylla-cql", twin=True, functions=["scylla-cql/src/frame/request/query.rs:QueryParameters::serialize"]),
+        Harness("c09_twin_short_length_guard", "C09.twin.short_length_guard", "PROVED-C", "write_short_length: all usize values: > 65535 refused and nothing written", crate="scylla-cql", twin=True, functions=["scylla-cql/src/frame/types.rs:write_short_length"]),
+    ],
     "trusted_base": ["Verus/Z3 soundness", "bytes::BufMut append-only big-endian contract", "Cow<T> deref, str::len, to_be_bytes, slice copy_from_slice (external_body)", "compress_append only appends"],
     "assumptions": [],
     "not_covered": ["Execute/ExecuteV2/Batch/Startup/Register/Options/AuthResponse bodies", "LZ4/Snappy round trip", "bodies >= 4 GiB (length cast truncates; far above the protocol's frame limit)"],
